@@ -133,8 +133,11 @@ def new_atom(tag, serial, name, resn, chain, resnum, x, y, z, alt=" ", icode=" "
 
 
 def raw(text):
+    """A non-atom record; padded to the 6-column record name (propka compares line[0:6])."""
     r = Rec()
-    r.tag = (text[:6] + "      ")[:6]
+    if len(text) < 6:
+        text = (text + "      ")[:6]
+    r.tag = text[:6]
     r.raw = text
     return r
 
